@@ -69,6 +69,9 @@ func loadSpecs() (*SpecDB, map[string][]byte, error) {
 		}
 		return nil
 	})
+	if err == nil {
+		err = db.expandModifies()
+	}
 	return db, overlay, err
 }
 
